@@ -31,6 +31,7 @@ type scenario struct {
 	Queue     int         `json:"queue"` // bytes
 	Producers [][]arrival `json:"producers"`
 	Reconf    []reconf    `json:"reconf"`
+	NoRateOpt bool        `json:"noRateOpt,omitempty"` // the filter is built without a TBFRate option: the documented default of 1 MBit/s applies
 	SinkStallEvery int    `json:"sinkStallEvery,omitempty"` // the NIC behind the filter blocks for SinkStallNs on every k-th datagram it is handed
 	SinkStallNs    int64  `json:"sinkStallNs,omitempty"`
 	CloseAfterNs int64    `json:"closeAfterNs"` // idle time before Close (0: close while datagrams may still be queued)
@@ -41,6 +42,10 @@ func gen(r *harn.Rng, tier string) interface{} {
 		Rate:  r.Pick(100*vnet.KBit, 500*vnet.KBit, 1*vnet.MBit, 2*vnet.MBit, 8*vnet.MBit),
 		Burst: r.Pick(100, 1000, 8000, 8000, 20000),
 		Queue: r.Pick(50000, 50000, 3000, 100, 12000),
+	}
+	if r.Bool(0.1) {
+		sc.NoRateOpt = true
+		sc.Rate = 1 * vnet.MBit
 	}
 	np := 1
 	if r.Bool(0.25) {
@@ -163,7 +168,11 @@ func run(env *simrt.Env, sci interface{}) {
 		}
 	}}
 	optRate, optBurst := vnet.TBFRate(sc.Rate), vnet.TBFMaxBurst(sc.Burst)
-	tbf, err := vnet.NewTokenBucketFilter(sink, optRate, optBurst, vnet.TBFQueueSizeInBytes(sc.Queue))
+	opts := []vnet.TBFOption{optRate, optBurst, vnet.TBFQueueSizeInBytes(sc.Queue)}
+	if sc.NoRateOpt {
+		opts = opts[1:]
+	}
+	tbf, err := vnet.NewTokenBucketFilter(sink, opts...)
 	if err != nil {
 		env.Infra("NewTokenBucketFilter: %v", err)
 		return
